@@ -15,7 +15,7 @@ from fractions import Fraction
 from pyvc import values as V
 from pyvc.values import Arr, Arr2, Cx
 from pyvc.harness import Task
-from . import classes
+from . import classes, e3
 from .e3 import E3, e3_interp
 from .C10 import toeplitz_apply
 
@@ -24,7 +24,8 @@ META = {
     "level": "other",
     "functions": ["spectrum.lpc.lpc", "spectrum.tools.nextpow2", "spectrum.yulewalker.pyule.__init__", "spectrum.yulewalker.aryule", "spectrum.yulewalker.pyule.__call__", "spectrum.correlation.CORRELATION",
                   "spectrum.levinson.LEVINSON", "spectrum.linalg.corrmtx"],
-    "assumptions": ["A-REAL", "normal-eq / gram: bounded in size (N <= 5, p <= 2 quick; N <= 6, p <= 3 thorough), all values",
+    "assumptions": ["A-REAL", "stable.real.N*.p1: bounded (N = 3..6, order 1, real data), all data values; z3 nlsat trusted",
+                    "normal-eq / gram: bounded in size (N <= 5, p <= 2 quick; N <= 6, p <= 3 thorough), all values",
                     "reflection coefficients of modulus < 1 and P > 0 for non-zero data: r^ is positive definite by the Gram identity "
                     "(a Gram matrix of full column rank) + the sign facts of C10: textbook step, not re-proved",
                     "roots strictly inside the unit circle: Schur-Cohn, not claimed",
@@ -255,8 +256,37 @@ def norm_task():
     return Task("ctor.pyule.norm", run, kind="bounded", functions=["spectrum.yulewalker.pyule.__init__", "spectrum.yulewalker.pyule.__call__"])
 
 
+def stable_task(N, p, cx):
+    """'a polynomial with all roots strictly inside the unit circle' for ANY non-zero data: the coefficients the real aryule returns
+    on symbolic data x[0..N-1] (rational functions of the data, extracted from the exact run) are handed to z3, and
+        x != 0,  z^p + a_1 z^(p-1) + ... + a_p = 0   =>   |z| < 1
+    is discharged over the reals (all data values at this N and p; bounded in N and p)."""
+    def run(tc):
+        names = sum((["x%d_r" % j, "x%d_i" % j] if cx else ["x%d" % j] for j in range(N)), [])
+        dom, I = e3_interp(tc, names)
+        E = E3(tc, dom, "aryule", {"N": N, "p": p, "complex": cx, "mode": "stable"}, tc.seed)
+        x = [dom.csym("x%d" % j) if cx else dom.sym("x%d" % j) for j in range(N)]
+        v = E.run(I, lambda I_: I_.call_qual("spectrum.yulewalker.aryule", Arr.from_items(x, dtype="complex" if cx else "float"), p))
+        if v is None or getattr(tc, "point_mode", False):
+            return
+
+        def hyps(zv):
+            import z3
+            return [z3.Or([zv[n] != 0 for n in names])]
+        e3.nra_stable(tc, E, dom, v[0].to_list(), hyps, "stable:x!=0=>roots-of-[1,a]-inside-unit-circle")
+    return Task("stable.%s.N%d.p%d" % ("complex" if cx else "real", N, p), run, kind="bounded", timeout=150, functions=["spectrum.yulewalker.aryule"])
+
+
+# order 1, real data: decided in about a second for N = 3..6.  N >= 7 at order 1, real order 2 (N = 3) and complex order 1
+# (N = 3) get no verdict from z3 within 60 s (non-linear arithmetic over 5-9 variables): not attempted, not claimed
+STABLE_SIZES = {'quick': [(N, 1, False) for N in range(3, 7)],
+                'thorough': [(N, 1, False) for N in range(3, 7)]}
+
+
 def tasks(tier):
     ts = [norm_task()]
+    for (N, p, cx) in STABLE_SIZES[tier if tier in STABLE_SIZES else 'thorough']:
+        ts.append(stable_task(N, p, cx))
     # real (6, 3) and complex beyond (4, 1) give no result within 150 s: not attempted
     for (N, p, cx) in ([(4, 1, False), (4, 2, False), (4, 1, True)] if tier == "quick" else
                        [(4, 1, False), (4, 2, False), (5, 2, False), (4, 1, True)]):
